@@ -11,11 +11,11 @@ def run(ctx):
     r = core.tlc(ctx, "gen", "ClassSelect", None, cfgtext=CFG % ("Spec", "Emit"), workers=1, timeout=900)
     if r["rc"] != 0:
         raise Undecided("enumeration failed:\n" + r["out"][-2000:])
-    ctx.tlc_stats.append(dict(name="enumerate", module="ClassSelect", cfg="48 rows and all transitions under fixed flags", generated=r["generated"],
+    ctx.tlc_stats.append(dict(name="enumerate", module="ClassSelect", cfg="64 rows and all transitions under fixed flags", generated=r["generated"],
                               distinct=r["distinct"], depth=r["depth"], wall_s=round(r["wall"], 1), violated=None))
     ts = core.behaviours_from_print(r["out"])
-    if len(ts) != 576:
-        raise Undecided("expected 576 transitions (12 x 12 x 4 flag settings), TLC printed %d" % len(ts))
+    if len(ts) != 1024:
+        raise Undecided("expected 1024 transitions (16 x 16 x 4 flag settings), TLC printed %d" % len(ts))
     inp = ctx.path("c", "in.json")
     out = ctx.path("c", "trace.ndjson")
     json.dump(ts, open(inp, "w"))
